@@ -35,7 +35,7 @@ Proof.
     destruct (run f ip h1 w1 (hd er)) as [h2 w2 r2 d2| |] eqn:R2; try contradiction.
     rewrite (IHh er ip h1 w1) by (rewrite R2; exact I). rewrite R2. destruct r2; auto.
     apply answers_updd in A. rewrite IHk; auto.
-  - destruct op; [destruct (w_in w)|]; auto.
+  - destruct (wstep w op) as [w2 [rv|re]]; auto.
 Qed.
 
 Definition bs_body (rec : list positive -> heap -> world -> task -> out) (ip:list positive) (h:heap) (w:world) (tk:task) : out :=
